@@ -469,16 +469,26 @@ func opLocksCampaign(r *ev.Run) {
 			if seen[d.aspect] {
 				continue
 			}
-			// a verdict only when the same walk diverges again
-			d2, err := opLocksWalk(gated, g, walks[i])
-			again := false
-			for _, x := range d2 {
-				if x.aspect == d.aspect {
-					again = true
+			// a verdict only when the same walk diverges again (twice in up to four re-runs)
+			hits := 0
+			for k := 0; k < 4 && hits < 2; k++ {
+				d2, err := opLocksWalk(gated, g, walks[i])
+				if err != nil {
+					continue
+				}
+				for _, x := range d2 {
+					if x.aspect == d.aspect {
+						hits++
+						break
+					}
 				}
 			}
-			if err != nil || !again {
-				r.Inconclusive("lock walk divergence %s did not reproduce: %s (%v)", d.aspect, d.desc, d.labels)
+			if hits == 0 {
+				transient(r, "lock walk divergence %s: %s (%v)", d.aspect, d.desc, d.labels)
+				continue
+			}
+			if hits == 1 {
+				r.Inconclusive("lock walk divergence %s reproduced only once in four re-runs: %s (%v)", d.aspect, d.desc, d.labels)
 				continue
 			}
 			seen[d.aspect] = true
